@@ -246,6 +246,48 @@ func Triggers(p *Package) []Trigger {
 			}
 		}
 	}
+	// a method with the name and the parameter types of one of the generic object methods
+	generic := map[string]string{"property": "any", "setProperty": "any,any", "properties": "", "terminate": "uint32", "metaObject": "uint32"}
+	for _, it := range p.Ifaces {
+		for ai, a := range it.Actions {
+			a, ai := a, ai
+			if want, ok := generic[a.Name]; ok && a.Kind == "fn" {
+				var ts []string
+				for _, x := range a.Params {
+					ts = append(ts, x.T.IDL())
+				}
+				if strings.Join(ts, ",") == want {
+					add("method_shadows_generic", fmt.Sprintf("fn %s.%s(%s)", it.Name, a.Name, want), func() { a.Name = fmt.Sprintf("zzg%d", ai) })
+				}
+			}
+		}
+	}
+	// a reference to an interface whose name is not title-cased
+	lower := map[*Iface]bool{}
+	note := func(t *IType) {
+		t.Walk(func(x *IType) {
+			if x.K == TObj {
+				if c := x.Obj.Name[0]; c >= 'a' && c <= 'z' && !lower[x.Obj] {
+					lower[x.Obj] = true
+					o := x.Obj
+					add("objref_lowercase_iface", "reference to interface "+o.Name, func() { o.Name = strings.ToUpper(o.Name[:1]) + o.Name[1:] })
+				}
+			}
+		})
+	}
+	for _, s := range p.Structs {
+		for _, f := range s.Fields {
+			note(f.T)
+		}
+	}
+	for _, it := range p.Ifaces {
+		for _, a := range it.Actions {
+			for _, x := range a.Params {
+				note(x.T)
+			}
+			note(a.Ret)
+		}
+	}
 	// object references outside the places the templates support
 	dropObj := func(t *IType) func() {
 		return func() {
